@@ -75,7 +75,8 @@ pub struct Report {
     pub nfail: u64,
     pub counters: std::collections::BTreeMap<String, u64>,
     pub samples: Vec<Value>,
-    pub distinct: std::collections::BTreeSet<String>,
+    pub distinct: std::collections::HashSet<u64>,
+    pub distinct_extra: u64,
     pub max_fail: usize,
 }
 impl Report {
@@ -87,8 +88,16 @@ impl Report {
             counters: Default::default(),
             samples: vec![],
             distinct: Default::default(),
+            distinct_extra: 0,
             max_fail: 400,
         }
+    }
+    /// registers one distinct non-trivial case (by its canonical description)
+    pub fn case(&mut self, key: &str) {
+        use std::hash::{Hash, Hasher};
+        let mut h = std::collections::hash_map::DefaultHasher::new();
+        key.hash(&mut h);
+        self.distinct.insert(h.finish());
     }
     pub fn count(&mut self, k: &str) {
         *self.counters.entry(k.to_string()).or_insert(0) += 1;
@@ -119,7 +128,7 @@ impl Report {
             "failures": self.failures,
             "counters": self.counters,
             "samples": self.samples,
-            "distinct": self.distinct.len(),
+            "distinct": self.distinct.len() as u64 + self.distinct_extra,
         })
     }
     pub fn write(&self, path: &str) {
